@@ -505,6 +505,19 @@ def load_spec(name):
         return json.load(fh)
 
 
+def value_poly(sy, d):
+    """polynomial of a returned value; a returned integer comparison is its 0/1 flag (so that `a == b` as the tail
+    expression and `if a == b { true } else { false }` / `matches!(.. if a == b)` give the same two rows)"""
+    p = sy.poly(d)
+    if p is None:
+        from .terms import strip as _st
+        from .guards import as_cmp as _as_cmp
+        d0 = _st(d)
+        if d0[0] in ("bin", "un") and _as_cmp(d0, True) is not None and not sy.is_float_cmp(d0):
+            p = sy.poly(("cast", "IntToInt", d0, "u8"))
+    return p
+
+
 def ret_table(prog, fn, alias=None, slice_param=None, only_ok=False):
     """[(sorted atom strings, return-value name)] over all feasible return paths of fn."""
     from .guards import analysis as _an
@@ -524,7 +537,7 @@ def ret_table(prog, fn, alias=None, slice_param=None, only_ok=False):
                 try:
                     out_ = []
                     for d in sy.var_defs(0) or []:
-                        p_ = sy.poly(d)
+                        p_ = value_poly(sy, d)
                         out_.append(str(p_) if p_ is not None else sy.name(d))
                     return out_
                 finally:
@@ -540,7 +553,7 @@ def ret_table(prog, fn, alias=None, slice_param=None, only_ok=False):
                     defs = sy.var_defs(0) or []
                     vals = []
                     for d in defs:
-                        p = sy.poly(d)
+                        p = value_poly(sy, d)
                         vals.append(str(p) if p is not None else sy.name(d))
                     sy.set_path(None)
                 finally:
